@@ -18,6 +18,7 @@ import ProfiVerif.Lemmas.ListenNet
 import ProfiVerif.Lemmas.ColdStartDuo
 import ProfiVerif.Lemmas.ColdStartReply
 import ProfiVerif.Lemmas.ColdStartChain
+import ProfiVerif.Lemmas.ColdStartPass
 
 namespace PV.C06
 open PV
@@ -1152,8 +1153,9 @@ consumes the reply exactly when it is complete, in whatever pieces it arrives, n
 next station, and — the requester's view having been the one-station ring (`HQ0.view`) — its view is now the ring view
 of the TWO-station ring (`RingView M' aL` for the ascending list `M'` of the two addresses; `HQ3.last`, via
 `AbstractRing.viewOk_setNext`); its state is `PassToken` (token holder: it will pass the token to the new station after the
-synchronisation pause) resp. `ClaimToken(Scan)`.  The token pass to the new station and its first visit are not
-part of this theorem. -/
+synchronisation pause) resp. `ClaimToken(Scan)`.  The listener ends idle (`ActiveIdle`, nothing pending), ready, with the requester as
+its previous station (`HQ3.ymw`) — the precondition of `adopted_station_gets_token`, which proves the token pass; its
+first visit is not proved. -/
 theorem gap_request_answered_ready (cfg : Cfg) (hok : cfg.Ok) (G : Nat) (hG : cfg.slot + 3 * cfg.P ≤ G) (x y : Nat)
     (r : Int) (r0 : TokenRing) (T : List Telegram) (aL aH : Nat)
     (hrdy : (hearAll aL T r0).readyForRing = true ∧ (hearAll aL T r0).ps = aL)
@@ -1304,5 +1306,62 @@ example : TwoRun2 cfgR 0 1 3 5 4800 4900 (cfgR.formTime 10) netL evsT :=
   two_station_cold_start_first_poll_answered cfgR cfgR_ok (by decide) 1000 (by decide) 0 1 { s := sL3, apps := [], online := true }
     { s := sL5, apps := [], online := true } 0 50 (by decide) (by decide) (by decide) rfl viewOne (by decide) evsT netL 50 cs2L rfl
     (by decide) (by decide) (schedN_of_times _ _ _ _ (schedNT_of_b 100 2 evsT [0, 50] 50 (by decide)))
+
+/-! ## The token pass to the adopted station -/
+
+/-- **The adopted station gets the token** (C02, admission of the second station, on the bus with arbitrary lag).
+Two station models on the byte-accurate bus.  Start (`TPass`, first alternative `TP0`): the holder `x` (address `aL`,
+stamp `lx`) is in `PassToken` — as after `gap_request_answered_ready` in `AwaitStatusResponse` —, its view is the ring
+`M` in which the adopted station is its successor; the adopted station `y` (address `aH`) idles (`ActiveIdle`, nothing
+pending) with `x` as its previous station and an empty pending-byte counter; both are up to date with the log (`Solo`);
+`x` has not been polled after the end of its synchronisation pause; `2·bits 33 + 4P + 4 ≤ Tto_y`.  Both polled at least
+every `P` (`SchedN`, `2 + 2P + bits 33 + ⌈11 bit⌉ ≤ Tslot`).  Then (`PassRun`): every poll returns regularly; `x`
+transmits nothing within its synchronisation pause, passes the token to `aH` at its first poll after it (exactly one
+token telegram; ring view still `M`, state `CheckTokenPass`) and then waits without its slot time running out; `y`
+transmits nothing, keeps the incomplete token in its buffer, accepts it — coming from its previous station — at its
+first poll after the last character and holds the token (`UseToken`) no later than `lx + 2·bits 33 + 2P + 1`.  What
+the new holder does with the token (its first visit, its GAP poll, the pass back) is not part of this theorem. -/
+theorem adopted_station_gets_token (cfg : Cfg) (hok : cfg.Ok) (x y : Nat) (lx : Int) (M : List Nat) (aL aH : Nat)
+    (evs : List (Nat × Int)) (n : Net) (stx sty : NetStation) (tl : Int) (h : TPass cfg n x y stx sty lx M tl)
+    (hN : n.stations.length = 2) (haL : stx.s.p.address = aL) (haH : sty.s.p.address = aH) (hs : SchedN cfg.P n tl evs) :
+    PassRun x y aL aH (lx + 2 * (cfg.b33 : Nat) + 2 * (cfg.P : Nat) + 1) n evs :=
+  pass_run hok x y lx M aL aH evs n stx sty tl h hN haL haH hs
+
+/-! Non-vacuity: station 3 (view {3, 5}) about to pass the token at 2000 µs, station 5 idle with previous station 3; both
+polled every 100 µs: the token is sent at 2150 µs and accepted at 2300 µs (bound 2333 µs). -/
+open PV.C13 in
+def sP3 : Station := { (Station.new pR3) with online := true, st := .passToken false .first, lastBusActivity := some 2000, ring := ringR 3 }
+open PV.C13 in
+def sI5 : Station := { (Station.new pR5) with online := true, st := .activeIdle none none 0, lastBusActivity := some 2000, ring := ringR 5 }
+def nsP3 : NetStation := { s := sP3, apps := [], online := true }
+def nsI5 : NetStation := { s := sI5, apps := [], online := true }
+def netP : Net := { bus := { rate := 500000, txs := [], seen := [2000, 2000] }, stations := [nsP3, nsI5] }
+
+open PV.C13 in
+theorem tp0P : TP0 cfgR netP 0 1 nsP3 nsI5 2000 2000 MR 2000 := by
+  have hinv3 : Inv sP3 [] := by
+    have h := inv_new pR3 [] (by decide) (by decide) (by intro s hs; cases hs)
+    exact ⟨h.addr, h.hsa, ringR_ok 3 (by decide), fun ho => by simp [sP3] at ho, h.gap, fun a ha => by simp [sP3] at ha,
+      fun a ha => by simp [sP3] at ha, h.app, fun a d ha => by simp [sP3] at ha, h.scripts, by simp [sP3]⟩
+  have hinv5 : Inv sI5 [] := by
+    have h := inv_new pR5 [] (by decide) (by decide) (by intro s hs; cases hs)
+    exact ⟨h.addr, h.hsa, ringR_ok 5 (by decide), fun ho => by simp [sI5] at ho, h.gap, fun a ha => by simp [sI5] at ha,
+      fun a ha => by simp [sI5] at ha, h.app, fun a d ha => by simp [sI5] at ha, h.scripts, by simp [sI5]⟩
+  have hv3 : RingView MR 3 (ringR 3) := ringR_view 3 (by decide)
+  have hv5 : RingView MR 5 (ringR 5) := ringR_view 5 (by decide)
+  refine ⟨?_, ?_, rfl, hv3, by decide, by decide, rfl, ?_, rfl, by decide, by decide, by decide, by decide, by decide⟩
+  · exact ⟨rfl, rfl, rfl, List.Pairwise.nil, (fun o ho => by cases ho), (fun o ho => by cases ho), (fun o ho => by cases ho),
+      (fun o ho => by cases ho), by decide, by decide, rfl, rfl, rfl, hinv3, rfl, rfl, rfl, rfl, rfl⟩
+  · exact ⟨rfl, rfl, rfl, List.Pairwise.nil, (fun o ho => by cases ho), (fun o ho => by cases ho), (fun o ho => by cases ho),
+      (fun o ho => by cases ho), by decide, by decide, rfl, rfl, rfl, hinv5, rfl, rfl, rfl, rfl, rfl⟩
+  · show (ringR 5).ps = 3
+    rw [hv5.ns.2]; decide
+
+def evsP : List (Nat × Int) := [(0, 2050), (1, 2100), (0, 2150), (1, 2200), (0, 2250), (1, 2300), (0, 2350), (1, 2400)]
+
+open PV.C13 in
+example : PassRun 0 1 3 5 2333 netP evsP :=
+  adopted_station_gets_token cfgR cfgR_ok 0 1 2000 MR 3 5 evsP netP nsP3 nsI5 2000 (.inl ⟨2000, tp0P⟩) rfl rfl rfl
+    (schedN_of_times _ _ _ _ (schedNT_of_b 100 2 evsP [2000, 2000] 2000 (by decide)))
 
 end PV.C06
